@@ -30,7 +30,10 @@ GCC = shutil.which("gcc")
 DIRS = ["src", "src/sub", "inc1", "inc2"]
 TAG = {"src": "SRC", "src/sub": "SUB", "inc1": "I1", "inc2": "I2"}
 STYLES = ["none", "guard", "sameguard", "once"]
-DIRECTIVES = ['#include "h.h"', "#include <h.h>", '#include "sub/k.h"', "#include <g.h>", "#include H_Q", "#include H_A"]
+DIRECTIVES = ['#include "h.h"', "#include <h.h>", '#include "sub/k.h"', "#include <g.h>", "#include H_Q", "#include H_A",
+              # X-macro pattern: an unguarded dispatch header whose computed include is re-evaluated under the macro state of each inclusion
+              '#undef IMPL\n#define IMPL "h.h"\n#include "disp.h"', '#undef IMPL\n#define IMPL <h.h>\n#include "disp.h"',
+              '#undef IMPL\n#define IMPL "sub/k.h"\n#include "disp.h"']
 
 
 def h_text(d, style):
@@ -57,7 +60,7 @@ def search_lists():
 
 
 def tu_text(seq):
-    lines = ['#define H_Q "h.h"', "#define H_A <h.h>", "int head;"] + list(seq)
+    lines = ['#define H_Q "h.h"', "#define H_A <h.h>", "int head;"] + [x for d in seq for x in d.split("\n")]
     for d in DIRS:
         lines += [f"#ifdef FROM_{TAG[d]}", f"int probe_{TAG[d]};", "#endif"]
     lines += ["#ifdef FROM_PRE", "int probe_PRE;", "#endif", "int tail;"]
@@ -67,7 +70,7 @@ def tu_text(seq):
 def build(root, placement, style, seq):
     shutil.rmtree(root, ignore_errors=True)
     files = {"src/main.c": tu_text(seq), "src/sub/k.h": '#include "h.h"\nint k;\n', "inc1/g.h": '#include "h.h"\nint g;\n',
-             "pre/pre.h": "#define FROM_PRE\nint pre;\n", "inc2/.keep.txt": "", "src/sub/.keep.txt": ""}
+             "pre/pre.h": "#define FROM_PRE\nint pre;\n", "src/disp.h": "#include IMPL\nint disp;\n", "inc2/.keep.txt": "", "src/sub/.keep.txt": ""}
     for d in placement:
         files[f"{d}/h.h"] = h_text(d, style)
     codebase.write_tree(root, files)
@@ -288,7 +291,7 @@ def run(tier):
             for sq in seqs:
                 for sl in slists:
                     for forced in ((False, True) if (tier == "thorough" or (len(sq) + len(sl)) % 2 == 0) else (False,)):
-                        if tier == "quick" and len(sq) == 2 and (hash((pl, st, sq, sl)) + env.SEED) % 3:
+                        if tier == "quick" and len(sq) == 2 and (hash((pl, st, sq, sl)) + env.SEED) % 4:
                             continue
                         cases.append((pl, st, sq, sl, forced))
     chunks = [cases[i:i + 400] for i in range(0, len(cases), 400)]
@@ -302,9 +305,9 @@ def run(tier):
     rep.coverage.update({
         "states": sinfo["states"], "transitions": sinfo["transitions"], "traces_validated_against_impl": sinfo["transitions"] + judged,
         "evaluations": n + sinfo["transitions"], "distinct_nontrivial": judged,
-        "rule": "15 placements of h.h x 4 guard styles x include sequences of length <=%d over 6 directive forms x 13 ordered -I/-isystem search lists x -include on/off%s; "
+        "rule": "15 placements of h.h x 4 guard styles x include sequences of length <=%d over 9 directive forms (incl. the X-macro dispatch pattern) x 13 ordered -I/-isystem search lists x -include on/off%s; "
                 "non-trivial = no header missing; S: BFS over find_include_file call sequences (4 names x 4 directories x 2 forms)" % (
-                    2 if tier == "quick" else 3, " (length-2 sequences: a seed-rotated third)" if tier == "quick" else ""),
+                    2 if tier == "quick" else 3, " (length-2 sequences: a seed-rotated quarter)" if tier == "quick" else ""),
         "cases": n, "judged": judged, "missing_header_excluded": n - judged, "failing_cases": sum(r[2] for r in res),
         "S": sinfo,
         "oracle_gcc": {"available": bool(GCC), "cases_checked": sum(r[4][0] for r in res), "disagreements": sum(r[4][1] for r in res),
